@@ -24,6 +24,7 @@ type StreamObj struct {
 	total     *Term // sum of all item sizes
 	delivered *Term // bytes handed to readers so far
 	closed    bool
+	owner     *DecData // the decoder that has been reading this stream
 }
 
 type EncData struct{ w IfaceV }
@@ -33,6 +34,7 @@ type DecData struct {
 	total  *Term
 	next   int
 	err    Value
+	torn   bool // bound to a stream another decoder had already been reading: it starts mid-stream
 }
 
 func (e *Exec) streamOf(v Value) *StreamObj {
@@ -207,8 +209,24 @@ func registerStreams() {
 			r := e.invoke(th, d.r, rm, []Value{&AbufV{n: q}}).(TupleV)
 			if d.stream == nil && e.lastRead != nil {
 				d.stream = e.lastRead
+				if d.stream.owner != nil && d.stream.owner != d {
+					// A second decoder on a stream that was already being decoded: whatever the first one had
+					// buffered is lost and this one starts in the middle of the data. What it then parses is
+					// not determined by the frames any more.
+					d.torn = true
+				}
+				d.stream.owner = d
 			}
 			n := r[0].(*Term)
+			if d.torn && isNilErr(r[1]) {
+				if e.branch(e.fresh("torn.syntax-error", 0)) {
+					d.err = e.jsonErr("invalid character (decoder started mid-stream)")
+					return d.err
+				}
+				// ... or it happens to find something that parses: an envelope nobody sent
+				fab, _ := parseJSONText(`{"id":"fabricated-by-mid-stream-decoder","event":"received"}`)
+				return e.decode(th, fab, rv{isPtrVal: true, ptr: target.v.(PtrV), t: target.t}, 0)
+			}
 			if !isNilErr(r[1]) {
 				// bytes of an incomplete value already consumed: EOF becomes ErrUnexpectedEOF
 				start := IntC(0)
